@@ -26,6 +26,7 @@ import (
 	"pgregory.net/rapid"
 
 	"verif/harness/hx"
+	"verif/harness/tx"
 )
 
 func TestMain(m *testing.M) { hx.Main(m) }
@@ -34,9 +35,9 @@ func TestMain(m *testing.M) { hx.Main(m) }
 
 // chunkReader returns the stream in the drawn chunk sizes (cycled); size 0 entries are skipped.
 type chunkReader struct {
-	b      []byte
-	chunks []int
-	i      int
+	b       []byte
+	chunks  []int
+	i       int
 	tailErr error // returned once the bytes are exhausted (nil = io.EOF)
 }
 
@@ -229,8 +230,8 @@ func TestAllLengths(t *testing.T) {
 // ---------------------------------------------------------------- dns.Msg round trip / PackTCPBuffer
 
 type MsgCase struct {
-	Target int   `json:"target_size"` // approximate packed size
-	Chunks []int `json:"chunks"`
+	Target int    `json:"target_size"` // approximate packed size
+	Chunks []int  `json:"chunks"`
 	ID     uint16 `json:"id"`
 	Exact  bool   `json:"exact"` // the packed size is exactly Target (boundary sizes)
 }
@@ -904,3 +905,144 @@ func TestReplay(t *testing.T) {
 	}
 }
 
+// ---------------------------------------------------------------- query side: what the upstream transports put on a stream
+
+// The transports frame the caller's query bytes themselves (copyMsgWithLenHdr). For every size around the 16-bit
+// limit: up to 65535 bytes the stream carries length||bytes exactly; anything longer is refused and nothing that could
+// be mis-read as a frame reaches the stream.
+func TestUpstreamQueryFraming(t *testing.T) {
+	man := hx.NewManual(t, true, "query sizes {13, 512, 65534, 65535, 65536, 65537, 70000, 131072} x {tdc, pipe, reuse} engines on a stream connection")
+	for _, engine := range []string{"tdc", "pipe", "reuse"} {
+		for _, size := range []int{13, 512, 65534, 65535, 65536, 65537, 70000, 131072} {
+			engine, size := engine, size
+			man.Case(map[string]any{"engine": engine, "size": size}, func(ctx *hx.Ctx) *hx.Failure {
+				env := tx.NewEnv(false)
+				eng, err := tx.NewEngine(engine, env, tx.Opt{MaxCQ: 8, LazyQueue: 8})
+				if err != nil {
+					return hx.Failf("C16/harness", "%v", err)
+				}
+				defer eng.Close()
+				q := fill(size, byte(size))
+				q[2] &^= 0x80 // a query
+				cx, cancel := context.WithTimeout(context.Background(), 300*time.Millisecond)
+				_, xerr := eng.Exchange(cx, q)
+				cancel()
+				var stream []byte
+				for _, fc := range env.Conns() {
+					for _, w := range fc.Writes() {
+						stream = append(stream, w...)
+					}
+				}
+				if size > 65535 {
+					if xerr == nil {
+						return hx.Failf("C16/oversize-accepted", "engine=%s: a %d-byte query was accepted", engine, size)
+					}
+					if len(stream) != 0 {
+						return hx.Failf("C16/oversize-misframed", "engine=%s: a %d-byte query cannot be framed, yet %d bytes were written to the stream (announced length %d)", engine, size, len(stream), int(stream[0])<<8|int(stream[1]))
+					}
+					ctx.Class("oversize-query-refused")
+				} else {
+					want := append(binary.BigEndian.AppendUint16(nil, uint16(size)), q...)
+					if len(stream) >= 4 {
+						copy(want[2:4], stream[2:4]) // the pipelining transports send their own message ID
+					}
+					if !bytes.Equal(stream, want) {
+						return hx.Failf("C16/frame-bytes", "engine=%s: a %d-byte query was written as %d bytes that differ from length||query (first difference at %d)", engine, size, len(stream), firstDiff(stream, want))
+					}
+					ctx.Class("query-framed")
+				}
+				ctx.Nontrivial(fmt.Sprintf("%s/%d", engine, size))
+				ctx.Sample(map[string]any{"engine": engine, "size": size, "bytes_on_stream": len(stream)})
+				return nil
+			})
+		}
+	}
+}
+
+// ---------------------------------------------------------------- server side: a frame that stalls past the idle timeout
+
+type stallHandler struct{ gate chan struct{} }
+
+func (h *stallHandler) Handle(_ context.Context, q *dns.Msg, _ server.QueryMeta, pack func(*dns.Msg) (*[]byte, error)) *[]byte {
+	if q.Question[0].Name == "first.c16.test." {
+		<-h.gate
+	}
+	r := new(dns.Msg)
+	r.SetReply(q)
+	r.Answer = []dns.RR{&dns.TXT{Hdr: dns.RR_Header{Name: q.Question[0].Name, Rrtype: dns.TypeTXT, Class: dns.ClassINET, Ttl: 1}, Txt: []string{"answer"}}}
+	p, err := pack(r)
+	if err != nil {
+		return nil
+	}
+	return p
+}
+
+// A client sends one complete query (still being handled), then the length header and a part of the body of a second
+// frame, and stalls for longer than the server's idle timeout. The part of the body it did send is, read on its own, a
+// well-formed frame with a query for "injected.c16.test.". The server may close the connection or go on waiting; it must
+// never treat bytes from inside a frame as the start of a frame, i.e. no reply to the injected query may ever arrive.
+func TestServerStalledFrame(t *testing.T) {
+	man := hx.NewManual(t, true, "loopback TCP server, idle timeout 60 ms; a frame stalls for 250 ms after {header only, header + part of the body} while another query is in flight")
+	for _, sentBody := range []bool{false, true} {
+		sentBody := sentBody
+		man.Case(map[string]any{"body_partly_sent": sentBody}, func(ctx *hx.Ctx) *hx.Failure {
+			l, err := net.Listen("tcp", "127.0.0.1:0")
+			if err != nil {
+				ctx.Class("skipped:no-loopback-listener")
+				return nil
+			}
+			defer l.Close()
+			h := &stallHandler{gate: make(chan struct{})}
+			go server.ServeTCP(l, h, server.TCPServerOpts{IdleTimeout: 60 * time.Millisecond})
+			c, err := net.Dial("tcp", l.Addr().String())
+			if err != nil {
+				return hx.Failf("C16/harness", "dial: %v", err)
+			}
+			defer c.Close()
+			frame := func(name string, id uint16) []byte {
+				q := new(dns.Msg)
+				q.SetQuestion(name, dns.TypeTXT)
+				q.Id = id
+				w, _ := q.Pack()
+				return append(binary.BigEndian.AppendUint16(nil, uint16(len(w))), w...)
+			}
+			c.Write(frame("first.c16.test.", 1))
+			inner := frame("injected.c16.test.", 2)
+			outer := binary.BigEndian.AppendUint16(nil, uint16(len(inner)+40))
+			if sentBody {
+				outer = append(outer, inner...)
+			}
+			c.Write(outer)
+			time.Sleep(250 * time.Millisecond) // several idle timeouts
+			if !sentBody {
+				c.Write(inner) // the body continues at last (still 40 bytes short of the announced length)
+				time.Sleep(150 * time.Millisecond)
+			}
+			close(h.gate)
+			c.SetReadDeadline(time.Now().Add(500 * time.Millisecond))
+			var names []string
+			for {
+				hdr := make([]byte, 2)
+				if _, err := io.ReadFull(c, hdr); err != nil {
+					break
+				}
+				b := make([]byte, binary.BigEndian.Uint16(hdr))
+				if _, err := io.ReadFull(c, b); err != nil {
+					break
+				}
+				r := new(dns.Msg)
+				if r.Unpack(b) == nil && len(r.Question) == 1 {
+					names = append(names, r.Question[0].Name)
+				}
+			}
+			for _, n := range names {
+				if n == "injected.c16.test." {
+					return hx.Failf("C16/reframed-inside-frame", "the server answered a query that was never sent as a frame: its bytes were part of the body of a frame that stalled past the idle timeout (body partly sent at once: %v); replies received: %v", sentBody, names)
+				}
+			}
+			ctx.Nontrivial(fmt.Sprintf("stalled-frame/%v", sentBody))
+			ctx.Sample(map[string]any{"body_partly_sent": sentBody, "replies": names})
+			return nil
+		})
+	}
+}
